@@ -99,6 +99,9 @@ def sched_runs(run, harness, kinds, focus, tags, quick=(60, 6), thorough=(1500, 
     nprog, nsched = Q(run, quick, thorough)
     seeds = [run.seed] if run.tier == "quick" else [run.seed, run.seed + 1]
     for kind in kinds:
+        # corpus first: exact schedules of past failures (F4, F5) for this container kind
+        for cf in sorted(glob.glob(os.path.join(R.VERIF, "corpus", "sched", "*_%s.txt" % kind))):
+            R.sched_exploration(run, harness, "corpus_%s" % os.path.basename(cf)[:-4], ["file=" + cf], tags, lin=lin)
         for sd in seeds:
             args = ["kind=" + kind, "seed=%d" % sd, "nprog=%d" % nprog, "nsched=%d" % nsched]
             if focus:
@@ -382,9 +385,12 @@ def replay(run, path):
             print(err)
             return 2
         d = run.work
-        R.sh([harness, "sched", "out=" + d] + p["harness_args"], timeout=3000)
+        # exact replay: the recorded program with its recorded schedule (thread id per step)
+        open(os.path.join(d, "replay_hist.txt"), "w").write("\n".join(p["history"]) + "\n")
+        R.sh([harness, "schedreplay", "out=" + d, "file=" + os.path.join(d, "replay_hist.txt")], timeout=3000)
         hs = R.parse_hists(os.path.join(d, "hist.txt"))
-        lines = hs.get(p["history_id"], [])
+        lines = hs.get("1", [])
+        p["history_id"] = "1"
         print("\n".join(lines))
         open(os.path.join(d, "one.txt"), "w").write("\n".join(lines) + "\n")
         import subprocess
